@@ -332,10 +332,14 @@ def mt_src(prog):
     for p in ifaces:
         o.append("        use %s::sv::mt::%sProxy;\n" % (p["id"], p["id"].capitalize()))
     o.append("        for (hi, h) in hists.as_array().cloned().unwrap_or_default().iter().enumerate() {\n"
+             "          // a panic ends this history only, and is recorded as an observation of the operation it happened in\n"
+             "          let cur = std::cell::Cell::new((0usize, serde_json::Value::Null));\n"
+             "          let res = verif_rrt::rt::catch(std::panic::AssertUnwindSafe(|| {\n"
              "            let app = sylvia::multitest::App::new(mt::seeded_app());\n            let mut raw = mt::seeded_app();\n"
              "            let mut codes = vec![];\n            let mut raw_codes: Vec<u64> = vec![];\n"
              "            let mut ctr_p = None;\n            let mut ctr_r: Option<Addr> = None;\n"
              "            for (si, op) in h.as_array().cloned().unwrap_or_default().iter().enumerate() {\n"
+             "                cur.set((si, op.clone()));\n"
              "                let s = |k: &str| op[k].as_str().unwrap_or(\"\").to_string();\n"
              "                let val = op[\"val\"].as_u64().unwrap_or(0);\n"
              "                let f = mt::funds(op[\"funds\"].as_u64().unwrap_or(0));\n"
@@ -411,7 +415,9 @@ def mt_src(prog):
              "                let pa = ctr_p.as_ref().map(|p| p.contract_addr.clone());\n"
              "                let pview = mt::view(&app.app(), pa.as_ref());\n                let rview = mt::view(&raw, ctr_r.as_ref());\n"
              "                mt::emit_op(\"%s\", hi, si, op, pres, rres, pview, rview, pa == ctr_r);\n"
-             "            }\n        }\n    }\n\n" % pid)
+             "            }\n          }));\n"
+             "          if let Err(m) = res { let (si, op) = cur.take(); mt::emit_panic(\"%s\", hi, si, &op, &m); }\n"
+             "        }\n    }\n\n" % (pid, pid))
     return "".join(o)
 
 
